@@ -453,11 +453,26 @@ def _run_property(ctx, spec):
         return _violation(ctx, spec, coverage, {"broken": "skah tables", "log": log}, no_input=True)
     # 2. proofs
     proofs_ok, info = audit_props(ctx, spec["modules"])
+    if proofs_ok and tier == "thorough":
+        # independent re-check of the compiled declarations of the property modules
+        from concurrent.futures import ThreadPoolExecutor
+        def _lc(m):
+            rc, out, err = sh(["lake", "env", "leanchecker", m], cwd=LEAN, timeout=3600)
+            return m, rc, (out + err)[-800:]
+        with ThreadPoolExecutor(max_workers=6) as ex:
+            res = list(ex.map(_lc, spec["modules"]))
+        bad = [(m, log) for m, rc, log in res if rc != 0]
+        info["leanchecker"] = {m: ("ok" if rc == 0 else "failed") for m, rc, _ in res}
+        if bad:
+            proofs_ok = False
+            info["build_log"] = "leanchecker rejected: " + "; ".join(f"{m}: {log}" for m, log in bad)
     coverage["obligations"] = len(info.get("theorems", [])) or 1
     coverage["discharged"] = len([t for t in info.get("theorems", []) if t in info.get("axioms", {})]) if proofs_ok else 0
     coverage["axioms"] = info.get("axioms", {})
     coverage["nonstandard_axioms"] = info.get("nonstandard_axioms", {})
     coverage["theorems"] = info.get("theorems", [])
+    if info.get("leanchecker"):
+        coverage["leanchecker"] = info["leanchecker"]
     broken = None
     if not proofs_ok:
         broken = {"broken": "proof obligations of " + ",".join(spec["modules"]),
